@@ -19,45 +19,103 @@ theorem rd16_le16 (n : Nat) (h : n < 65536) :
   simp only [rd16, UInt8.toNat_ofNat']
   omega
 
-/-- The regenerated `align32` is "next multiple of 4". -/
-theorem align32N_eq (x : Nat) : align32N x = align4 x := by
-  simp only [align32N, align32, align4, pyDiv]
-  have : Int.fdiv ((x : Int) + 3) 4 = (((x + 3) / 4 : Nat) : Int) := by
-    rw [Int.fdiv_eq_ediv_of_nonneg _ (by omega)]
-    omega
-  rw [this]
+/-- The regenerated `linesize` expression is "row bytes rounded up to a multiple of 4". -/
+theorem bmpLinesize_cast (bits w : Nat) : bmpLinesize (w : Int) (bits : Int) = ((align4 ((w * bits + 7) / 8) : Nat) : Int) := by
+  simp only [bmpLinesize, align32, align4, pyDiv]
+  have hm : (w : Int) * (bits : Int) = ((w * bits : Nat) : Int) := by simp
+  rw [hm]
+  generalize w * bits = m
+  rw [Int.fdiv_eq_ediv_of_nonneg _ (by omega), Int.fdiv_eq_ediv_of_nonneg _ (by omega)]
   omega
+
+theorem lineSize_eq (bits w : Nat) : lineSize bits w = align4 ((w * bits + 7) / 8) := by
+  unfold lineSize
+  rw [bmpLinesize_cast]
+  simp
+
+/-- The header the writer produces when every field fits. -/
+def headerBytes (bits w h ncols : Nat) : Bytes :=
+  [66, 77] ++ le32 (54 + ncols * 4 + lineSize bits w * h) ++ le16 0 ++ le16 0 ++ le32 (54 + ncols * 4) ++
+  le32 40 ++ le32 w ++ le32 h ++ le16 1 ++ le16 bits ++ le32 0 ++ le32 (lineSize bits w * h) ++ le32 0 ++ le32 0 ++
+  le32 ncols ++ le32 0
+
+def fitsNat (f : Nat × Nat) : Prop :=
+  (f.1 = 99 ∧ f.2 < 256) ∨ (f.1 = 72 ∧ f.2 < 65536) ∨ (f.1 = 73 ∧ f.2 < 4294967296) ∨ (f.1 = 105 ∧ f.2 < 2147483648)
+
+def packNat (f : Nat × Nat) : Bytes :=
+  if f.1 = 99 then [UInt8.ofNat f.2] else if f.1 = 72 then le16 f.2 else le32 f.2
+
+theorem packField_nat (f : Nat × Nat) (hf : fitsNat f) : packField (f.1, (f.2 : Int)) = .ok (packNat f) := by
+  obtain ⟨c, n⟩ := f
+  rcases hf with ⟨rfl, h⟩ | ⟨rfl, h⟩ | ⟨rfl, h⟩ | ⟨rfl, h⟩ <;> simp only at h
+  · simp only [packField, packNat, if_true]
+    rw [if_pos (by omega)]; simp
+  · simp only [packField, packNat, show (72 : Nat) ≠ 99 by decide, if_false, if_true]
+    rw [if_pos (by omega)]; simp
+  · simp only [packField, packNat, show (73 : Nat) ≠ 99 by decide, show (73 : Nat) ≠ 72 by decide, if_false, if_true]
+    rw [if_pos (by omega)]; simp
+  · simp only [packField, packNat, show (105 : Nat) ≠ 99 by decide, show (105 : Nat) ≠ 72 by decide,
+      show (105 : Nat) ≠ 73 by decide, if_false, if_true]
+    rw [if_pos (by omega)]
+    have : ((n : Int) % 4294967296).toNat = n := by omega
+    rw [this]
+
+theorem packAll_nat : ∀ (fs : List (Nat × Nat)), (∀ f ∈ fs, fitsNat f) →
+    packAll (fs.map (fun f => (f.1, (f.2 : Int)))) = .ok (fs.flatMap packNat)
+  | [], _ => rfl
+  | f :: fs, h => by
+    simp only [List.map_cons, packAll, List.flatMap_cons]
+    rw [packField_nat f (h f (by simp)), packAll_nat fs (fun g hg => h g (by simp [hg]))]
+
+theorem fitsC (n : Nat) (h : n < 256) : fitsNat (99, n) := Or.inl ⟨rfl, h⟩
+theorem fitsH (n : Nat) (h : n < 65536) : fitsNat (72, n) := Or.inr (Or.inl ⟨rfl, h⟩)
+theorem fitsI (n : Nat) (h : n < 4294967296) : fitsNat (73, n) := Or.inr (Or.inr (Or.inl ⟨rfl, h⟩))
+theorem fitsSI (n : Nat) (h : n < 2147483648) : fitsNat (105, n) := Or.inr (Or.inr (Or.inr ⟨rfl, h⟩))
+
+theorem bmpHeader_explicit (bits w h ncols : Nat) (hb : bits < 65536) (hw : w < 2147483648) (hh : h < 2147483648)
+    (hs : 54 + ncols * 4 + lineSize bits w * h < 4294967296) :
+    bmpHeader bits w h ncols = .ok (headerBytes bits w h ncols) := by
+  have hL : bmpLinesize (w : Int) (bits : Int) = ((lineSize bits w : Nat) : Int) := by
+    rw [lineSize_eq, bmpLinesize_cast]
+  unfold bmpHeader headerBytes
+  simp only [bmpFileFields, bmpInfoFields, bmpDatasize, bmpHeadersize, hL, List.cons_append, List.nil_append]
+  generalize lineSize bits w = L at *
+  have hfit : ∀ f ∈ ([(99, 66), (99, 77), (73, 54 + ncols * 4 + L * h), (72, 0), (72, 0), (73, 54 + ncols * 4),
+     (73, 40), (105, w), (105, h), (72, 1), (72, bits), (73, 0), (73, L * h), (73, 0), (73, 0), (73, ncols), (73, 0)] :
+     List (Nat × Nat)), fitsNat f := by
+    intro f hf
+    simp only [List.mem_cons, List.not_mem_nil, or_false] at hf
+    rcases hf with rfl | rfl | rfl | rfl | rfl | rfl | rfl | rfl | rfl | rfl | rfl | rfl | rfl | rfl | rfl | rfl | rfl
+    all_goals first
+      | exact fitsC _ (by omega)
+      | exact fitsH _ (by omega)
+      | exact fitsI _ (by omega)
+      | exact fitsSI _ (by omega)
+  have key := packAll_nat _ hfit
+  simp only [List.map_cons, List.map_nil, List.flatMap_cons, List.flatMap_nil, packNat] at key
+  have e1 : (14 : Int) + 40 + (ncols : Int) * 4 + (L : Int) * (h : Int) = ((54 + ncols * 4 + L * h : Nat) : Int) := by
+    simp only [Int.natCast_add, Int.natCast_mul]; omega
+  have e2 : (14 : Int) + 40 + (ncols : Int) * 4 = ((54 + ncols * 4 : Nat) : Int) := by
+    simp only [Int.natCast_add, Int.natCast_mul]; omega
+  have e3 : (L : Int) * (h : Int) = ((L * h : Nat) : Int) := by simp
+  rw [e1, e2, e3]
+  exact key
 
 theorem le_align4 (x : Nat) : x ≤ align4 x := by
   unfold align4; omega
 
-theorem parse_bmpHeader (bits w h ncols : Nat) (hdr rest : Bytes) (hb : bits < 65536) (hn : ncols ≤ 256)
-    (hok : bmpHeader bits w h ncols = .ok hdr) :
-    hdr.length = 54 ∧
-    parseHeader (hdr ++ rest) =
+theorem parse_headerBytes (bits w h ncols : Nat) (rest : Bytes) (hb : bits < 65536) (hw : w < 2147483648)
+    (hh : h < 2147483648) (hs : 54 + ncols * 4 + lineSize bits w * h < 4294967296) :
+    (headerBytes bits w h ncols).length = 54 ∧
+    parseHeader (headerBytes bits w h ncols ++ rest) =
       some (Header.mk true (54 + ncols * 4 + lineSize bits w * h) (54 + ncols * 4) 40 w h 1 bits 0 ncols, rest) := by
-  unfold bmpHeader at hok
-  simp only at hok
-  split at hok
-  · cases hok
-  · rename_i hlim
-    injection hok with hok
-    subst hok
-    constructor
-    · simp [le32, le16]
-    · simp only [le32, le16, List.cons_append, List.nil_append, parseHeader]
-      rw [rd32_le32 _ (by omega), rd32_le32 _ (by omega), rd32_le32 _ (by omega), rd32_le32 _ (by omega),
-          rd32_le32 _ (by omega), rd32_le32 _ (by omega), rd32_le32 _ (by omega), rd16_le16 _ (by omega),
-          rd16_le16 _ (by omega)]
-      simp
-
-theorem bmpHeader_ok (bits w h ncols : Nat) (hw : w < 2147483648) (hh : h < 2147483648)
-    (hs : 54 + ncols * 4 + lineSize bits w * h < 4294967296) :
-    ∃ hdr, bmpHeader bits w h ncols = .ok hdr := by
-  unfold bmpHeader
-  simp only
-  rw [if_neg (by omega)]
-  exact ⟨_, rfl⟩
+  constructor
+  · simp [headerBytes, le32, le16]
+  · simp only [headerBytes, le32, le16, List.cons_append, List.nil_append, parseHeader]
+    rw [rd32_le32 _ (by omega), rd32_le32 _ (by omega), rd32_le32 _ (by omega), rd32_le32 _ (by omega),
+        rd32_le32 _ (by omega), rd32_le32 _ (by omega), rd32_le32 _ (by omega), rd16_le16 _ (by omega),
+        rd16_le16 _ (by omega)]
+    simp
 
 /-! ### rows as chunks of the pixel area -/
 
@@ -222,10 +280,107 @@ theorem palette_length (k : Kind) : (palette (ncolsOfKind k)).length = 4 * ncols
   cases k <;> decide +kernel
 
 theorem rowBytes_le_line (k : Kind) (w : Nat) : rowBytes k w ≤ lineSize (bitsOfKind k) w := by
-  unfold lineSize
-  rw [align32N_eq]
+  rw [lineSize_eq]
   refine Nat.le_trans ?_ (le_align4 _)
   cases k <;> simp only [rowBytes, bitsOfKind] <;> omega
+
+/-- Reading back header ++ palette ++ pixel area, with the line size and the rows abstract. -/
+theorem readBMP_written (k : Kind) (w h line : Nat) (hdr : Bytes) (rows : List Bytes)
+    (hw1 : 1 ≤ w) (hh1 : 1 ≤ h) (hw : w < 2147483648) (hh : h < 2147483648)
+    (hle : rowBytes k w ≤ line) (hline : align4 ((w * bitsOfKind k + 7) / 8) = line)
+    (hhl : hdr.length = 54)
+    (hparse : ∀ rest, parseHeader (hdr ++ rest) =
+      some (Header.mk true (54 + ncolsOfKind k * 4 + line * h) (54 + ncolsOfKind k * 4) 40 w h 1 (bitsOfKind k) 0
+        (ncolsOfKind k), rest))
+    (hrowlen : ∀ r ∈ rows, r.length = rowBytes k w) (hcount : rows.length = h) :
+    readBMP (hdr ++ palette (ncolsOfKind k) ++ writeBody (bitsOfKind k) line rows) =
+      some (w, h, rows.flatMap (rowRGB k w)) := by
+  let f : Bytes → Bytes := fun r => padRow line (if bitsOfKind k = 24 then swapRB r else r)
+  let chunks := rows.reverse.map f
+  have hchunkL : ∀ c ∈ chunks, c.length = line := by
+    intro c hc
+    rcases List.mem_map.mp hc with ⟨r, hr, rfl⟩
+    have hr' := hrowlen r (List.mem_reverse.mp hr)
+    simp only [f, padRow, List.length_append, List.length_replicate]
+    split <;> (try simp only [swapRB_length]) <;> omega
+  have hchunksLen : chunks.length = h := by simp [chunks, hcount]
+  have hbody : writeBody (bitsOfKind k) line rows = chunks.flatten := rfl
+  have hbodylen : (writeBody (bitsOfKind k) line rows).length = line * h := by
+    rw [hbody, length_flatten_chunks chunks hchunkL, hchunksLen]
+  have hfilelen : (hdr ++ palette (ncolsOfKind k) ++ writeBody (bitsOfKind k) line rows).length =
+      54 + ncolsOfKind k * 4 + line * h := by
+    simp only [List.length_append, hhl, palette_length, hbodylen]; omega
+  unfold readBMP
+  rw [List.append_assoc, hparse]
+  simp only []
+  have hnpal : (if bitsOfKind k = 24 then ncolsOfKind k
+      else if ncolsOfKind k = 0 then 2 ^ bitsOfKind k else ncolsOfKind k) = ncolsOfKind k := by
+    cases k <;> rfl
+  have hpow : bitsOfKind k ≠ 24 → ncolsOfKind k ≤ 2 ^ bitsOfKind k := by cases k <;> decide
+  have hkind : ¬ (bitsOfKind k ≠ 1 ∧ bitsOfKind k ≠ 8 ∧ bitsOfKind k ≠ 24) := by cases k <;> decide
+  rw [hnpal, hline, ← List.append_assoc, hfilelen]
+  rw [if_neg (by decide), if_neg (by omega), if_neg hkind, if_neg (by intro ⟨h1, h2⟩; have := hpow h1; omega),
+    if_neg (by omega), if_neg (by simp), if_neg (by omega)]
+  have hpal : List.take (4 * ncolsOfKind k) (palette (ncolsOfKind k) ++ writeBody (bitsOfKind k) line rows) =
+      palette (ncolsOfKind k) := by
+    rw [← palette_length k, List.take_left]
+  have hdrop : List.drop (54 + ncolsOfKind k * 4)
+      (hdr ++ palette (ncolsOfKind k) ++ writeBody (bitsOfKind k) line rows) = chunks.flatten := by
+    have : 54 + ncolsOfKind k * 4 = (hdr ++ palette (ncolsOfKind k)).length := by
+      simp only [List.length_append, hhl, palette_length]; omega
+    rw [this, List.drop_left, hbody]
+  rw [hpal, hdrop]
+  let E : Bytes → Bytes := fun c =>
+    (decodeRow (bitsOfKind k) w (palette (ncolsOfKind k)) (ncolsOfKind k) c).getD []
+  have hD : ∀ r ∈ rows, decodeRow (bitsOfKind k) w (palette (ncolsOfKind k)) (ncolsOfKind k) (f r) =
+      some (rowRGB k w r) := fun r hr => decodeRow_written k w line r (hrowlen r hr)
+  have hD' : ∀ c ∈ chunks, decodeRow (bitsOfKind k) w (palette (ncolsOfKind k)) (ncolsOfKind k) c = some (E c) := by
+    intro c hc
+    rcases List.mem_map.mp hc with ⟨r, hr, rfl⟩
+    simp only [E, hD r (List.mem_reverse.mp hr), Option.getD_some]
+  rw [decodeRows_chunks (bitsOfKind k) w line _ _ h chunks E hchunkL hD' h (by omega)]
+  simp only []
+  have : (List.take h chunks).reverse = rows.map f := by
+    rw [← hchunksLen, List.take_length]
+    simp [chunks]
+  rw [this, List.flatMap_map]
+  refine congrArg (fun x => some (w, h, x)) ?_
+  apply flatMap_congr'
+  intro r hr
+  simp only [E, hD r hr, Option.getD_some]
+
+theorem withName_ok (existing : List Bytes) (name ext nm file : Bytes) (c : Except Err Bytes)
+    (hn : ImageName.uniqueName existing name ext = some nm) (hc : c = .ok file) :
+    withName existing name ext c = .ok (nm, file) := by
+  subst hc
+  simp [withName, hn]
+
+/-- The regenerated `_save_bmp` arguments of the three bitmap branches of `export_image`. -/
+theorem bmpArgs_bit1 (w : Nat) :
+    (bmpDepth0 (w : Int) ((1 : Nat) : Int)).toNat = 1 ∧ (bmpBpl0 (w : Int) ((1 : Nat) : Int)).toNat = (w + 7) / 8 := by
+  simp only [bmpDepth0, bmpBpl0, pyDiv]
+  rw [Int.fdiv_eq_ediv_of_nonneg _ (by omega)]
+  omega
+
+theorem bmpArgs_rgb (w : Nat) :
+    (bmpDepth1 (w : Int) ((8 : Nat) : Int)).toNat = 24 ∧ (bmpBpl1 (w : Int) ((8 : Nat) : Int)).toNat = 3 * w := by
+  simp only [bmpDepth1, bmpBpl1]
+  omega
+
+theorem bmpArgs_gray (w : Nat) :
+    (bmpDepth2 (w : Int) ((8 : Nat) : Int)).toNat = 8 ∧ (bmpBpl2 (w : Int) ((8 : Nat) : Int)).toNat = w := by
+  simp only [bmpDepth2, bmpBpl2]
+  omega
+
+theorem saveBmp_ok (bits w h bpl ncols : Nat) (data hdr : Bytes) (hn : ncolsOf bits = some ncols)
+    (hh : bmpHeader bits w h ncols = .ok hdr) :
+    saveBmp bits w h bpl data = .ok (hdr ++ palette ncols ++ writeBody bits (lineSize bits w) (rowsOf bpl h data)) := by
+  unfold saveBmp
+  rw [hn]
+  show saveBmpWith ncols bits w h bpl data = _
+  unfold saveBmpWith
+  rw [hh]
+  rfl
 
 theorem saveBmp_read (k : Kind) (w h : Nat) (data : Bytes)
     (hw1 : 1 ≤ w) (hh1 : 1 ≤ h) (hw : w < 2147483648) (hh : h < 2147483648)
@@ -233,73 +388,19 @@ theorem saveBmp_read (k : Kind) (w h : Nat) (data : Bytes)
     (hlen : data.length = h * rowBytes k w) :
     ∃ file, saveBmp (bitsOfKind k) w h (rowBytes k w) data = .ok file ∧
       readBMP file = some (w, h, samplesRGB k w h data) := by
-  obtain ⟨hdr, hhdr⟩ := bmpHeader_ok (bitsOfKind k) w h (ncolsOfKind k) hw hh hs
   have hbits : bitsOfKind k < 65536 := by cases k <;> decide
-  have hnc : ncolsOfKind k ≤ 256 := by cases k <;> decide
-  let line := lineSize (bitsOfKind k) w
-  let rows := rowsOf (rowBytes k w) h data
-  let f : Bytes → Bytes := fun r => padRow line (if bitsOfKind k = 24 then swapRB r else r)
-  let chunks := rows.reverse.map f
-  have hrowlen : ∀ r ∈ rows, r.length = rowBytes k w := rowsOf_row_length _ h data hlen
-  have hchunkL : ∀ c ∈ chunks, c.length = line := by
-    intro c hc
-    rcases List.mem_map.mp hc with ⟨r, hr, rfl⟩
-    have hr' := hrowlen r (List.mem_reverse.mp hr)
-    have hle := rowBytes_le_line k w
-    simp only [f, padRow, List.length_append, List.length_replicate]
-    split <;> (try simp only [swapRB_length]) <;> omega
-  have hchunksLen : chunks.length = h := by simp [chunks, rows, rowsOf_length]
-  refine ⟨hdr ++ palette (ncolsOfKind k) ++ writeBody (bitsOfKind k) line rows, ?_, ?_⟩
-  · simp only [saveBmp, ncolsOf_kind, hhdr, rows, line]
-  · obtain ⟨hhl, hparse⟩ := parse_bmpHeader (bitsOfKind k) w h (ncolsOfKind k) hdr
-      (palette (ncolsOfKind k) ++ writeBody (bitsOfKind k) line rows) hbits hnc hhdr
-    have hbody : writeBody (bitsOfKind k) line rows = chunks.flatten := rfl
-    have hbodylen : (writeBody (bitsOfKind k) line rows).length = line * h := by
-      rw [hbody, length_flatten_chunks chunks hchunkL, hchunksLen]
-    have hfilelen : (hdr ++ palette (ncolsOfKind k) ++ writeBody (bitsOfKind k) line rows).length =
-        54 + ncolsOfKind k * 4 + line * h := by
-      simp only [List.length_append, hhl, palette_length, hbodylen]; omega
-    unfold readBMP
-    rw [List.append_assoc, hparse]
-    simp only []
-    have hnpal : (if bitsOfKind k = 24 then ncolsOfKind k
-        else if ncolsOfKind k = 0 then 2 ^ bitsOfKind k else ncolsOfKind k) = ncolsOfKind k := by
-      cases k <;> rfl
-    have hline : align4 ((w * bitsOfKind k + 7) / 8) = line := (align32N_eq _).symm
-    have hpow : bitsOfKind k ≠ 24 → ncolsOfKind k ≤ 2 ^ bitsOfKind k := by cases k <;> decide
-    have hkind : ¬ (bitsOfKind k ≠ 1 ∧ bitsOfKind k ≠ 8 ∧ bitsOfKind k ≠ 24) := by cases k <;> decide
-    rw [hnpal, hline, ← List.append_assoc, hfilelen]
-    rw [if_neg (by decide), if_neg (by omega), if_neg hkind, if_neg (by intro ⟨h1, h2⟩; have := hpow h1; omega),
-      if_neg (by omega), if_neg (by simp [line]), if_neg (by omega)]
-    have hpal : List.take (4 * ncolsOfKind k) (palette (ncolsOfKind k) ++ writeBody (bitsOfKind k) line rows) =
-        palette (ncolsOfKind k) := by
-      rw [← palette_length k, List.take_left]
-    have hdrop : List.drop (54 + ncolsOfKind k * 4)
-        (hdr ++ palette (ncolsOfKind k) ++ writeBody (bitsOfKind k) line rows) = chunks.flatten := by
-      have : 54 + ncolsOfKind k * 4 = (hdr ++ palette (ncolsOfKind k)).length := by
-        simp only [List.length_append, hhl, palette_length]; omega
-      rw [this, List.drop_left, hbody]
-    rw [hpal, hdrop]
-    let E : Bytes → Bytes := fun c =>
-      (decodeRow (bitsOfKind k) w (palette (ncolsOfKind k)) (ncolsOfKind k) c).getD []
-    have hD : ∀ r ∈ rows, decodeRow (bitsOfKind k) w (palette (ncolsOfKind k)) (ncolsOfKind k) (f r) =
-        some (rowRGB k w r) := fun r hr => decodeRow_written k w line r (hrowlen r hr)
-    have hD' : ∀ c ∈ chunks, decodeRow (bitsOfKind k) w (palette (ncolsOfKind k)) (ncolsOfKind k) c = some (E c) := by
-      intro c hc
-      rcases List.mem_map.mp hc with ⟨r, hr, rfl⟩
-      simp only [E, hD r (List.mem_reverse.mp hr), Option.getD_some]
-    rw [decodeRows_chunks (bitsOfKind k) w line _ _ h chunks E hchunkL hD' h (by omega)]
-    simp only []
-    have : (List.take h chunks).reverse = rows.map f := by
-      rw [← hchunksLen, List.take_length]
-      simp [chunks]
-    rw [this, List.flatMap_map]
-    congr 3
-    show _ = (splitRows (rowBytes k w) h data).flatMap (rowRGB k w)
-    rw [← rowsOf_eq_splitRows]
-    apply flatMap_congr'
-    intro r hr
-    simp only [E, hD r hr, Option.getD_some]
+  have hhdr := bmpHeader_explicit (bitsOfKind k) w h (ncolsOfKind k) hbits hw hh hs
+  refine ⟨headerBytes (bitsOfKind k) w h (ncolsOfKind k) ++ palette (ncolsOfKind k) ++
+    writeBody (bitsOfKind k) (lineSize (bitsOfKind k) w) (rowsOf (rowBytes k w) h data), ?_, ?_⟩
+  · exact saveBmp_ok _ _ _ _ _ _ _ (ncolsOf_kind k) hhdr
+  · have hcore := readBMP_written k w h (lineSize (bitsOfKind k) w) (headerBytes (bitsOfKind k) w h (ncolsOfKind k))
+      (rowsOf (rowBytes k w) h data) hw1 hh1 hw hh (rowBytes_le_line k w) (lineSize_eq _ _).symm
+      (parse_headerBytes (bitsOfKind k) w h (ncolsOfKind k) [] hbits hw hh hs).1
+      (fun rest => (parse_headerBytes (bitsOfKind k) w h (ncolsOfKind k) rest hbits hw hh hs).2)
+      (rowsOf_row_length _ h data hlen) (rowsOf_length _ h data)
+    rw [hcore]
+    unfold samplesRGB
+    rw [rowsOf_eq_splitRows]
 
 /-- Filters whose decoding is lossless (their decoders are C03's subject; here `data` is what
     `stream.get_data()` returns). -/
@@ -439,4 +540,3 @@ theorem samplesRGB_eq_idx (k : Kind) (w h : Nat) (data : Bytes) (hlen : data.len
   exact rowRGB_eq_pixels k w h data hlen r (by simpa using hr)
 
 end PdfVerif.BmpLemmas
-
